@@ -47,6 +47,8 @@ def run(ctx):
             ctx.proof_failure = "coqchk failed: " + out[-500:]
     n_h, n_b = (300, 90) if ctx.tier == "quick" else (6000, 1500)
     st = explore_full(ctx, n_h, n_b)
+    from .common import replay_generic_known
+    replay_generic_known(ctx, 'C05')
     ctx.coverage.update(
         evaluations=st["evaluations"], distinct_nontrivial=len(st["distinct"]),
         traces_validated_against_impl=st["agreed"],
